@@ -299,9 +299,12 @@ int strncasecmp(const char *a, const char *b, size_t n)
  * NUL-terminated; the return value is the length the complete output would have had, or a
  * negative value on an output error (then the buffer contents are unspecified but stay inside
  * n bytes).  Format semantics are NOT modelled: the bytes written are arbitrary non-NUL bytes. */
+/* vg_fmt_cap: a unit may restrict the length the formatted output "would have" (ghost, bound by a requires) */
+int vg_fmt_cap;
 static int vstr_format(char *buf, size_t n)
 {
     int r = nondet_int();
+    __CPROVER_assume(r <= vg_fmt_cap);
     if (n > 0) {
         __CPROVER_assert(buf != NULL && __CPROVER_w_ok(buf, n), "snprintf: destination has n writable bytes");
         __CPROVER_havoc_slice(buf, n);                       /* arbitrary bytes, all inside n */
@@ -332,46 +335,67 @@ int vsnprintf(char *buf, size_t n, const char *fmt, va_list ap)
 }
 
 /* ---- fgets -------------------------------------------------------------------
- * Reads at most n-1 bytes, stops after a newline or at EOF; stores a terminating NUL after the
- * last byte read and returns buf; returns NULL (buffer unchanged) at EOF with nothing read, or
- * on error (buffer contents then indeterminate).  A read byte can be any value, including NUL
- * (binary input).  vg_fgets_calls counts calls, vg_fgets_got is the byte count of the last call. */
-size_t vg_fgets_got;
+ * Stream model: what is left of the current line is vg_stream_left bytes (arbitrary, chosen by the unit); if
+ * vg_stream_nl is set the last of them is a newline, otherwise the stream ends there (EOF).  fgets(buf, n, fp)
+ * reads min(n-1, left) bytes - never fewer: it only stops early at a newline or at EOF - stores them followed by
+ * a NUL and returns buf; with nothing left it returns NULL and leaves the buffer alone.  A byte can be any value
+ * including NUL (binary input) except that a newline occurs only as the last byte of the line (instance vg_k).
+ * After the newline has been delivered the next line starts: again an arbitrary amount.  vg_fgets_calls counts
+ * calls; vg_stream_total accumulates the bytes delivered. */
+size_t vg_stream_left, vg_stream_total, vg_fgets_calls;
+_Bool vg_stream_nl;
 char *fgets(char *buf, int n, FILE *fp)
 {
     __CPROVER_assert(fp != NULL, "fgets: stream not NULL");
     __CPROVER_assert(n > 0, "fgets: size positive");
     __CPROVER_assert(buf != NULL && __CPROVER_w_ok(buf, (size_t) n), "fgets: destination has n writable bytes");
-    if (nondet_bool()) { vg_fgets_got = 0; return (char *) 0; }      /* EOF with nothing read / error */
-    size_t got = nondet_size_t();
-    __CPROVER_assume(got >= 1 && got <= (size_t) n - 1);
+    __CPROVER_assume(n > 0 && buf != NULL && __CPROVER_w_ok(buf, (size_t) n));   /* failures above are reported */
+    vg_fgets_calls++;
+    if (vg_stream_left == 0 || n == 1) return (char *) 0;
+    size_t got = (vg_stream_left < (size_t) n - 1) ? vg_stream_left : (size_t) n - 1;
     __CPROVER_havoc_slice(buf, got);
     buf[got] = 0;
-    /* a newline can only be the last byte read (instance vg_k), and a short count means newline or EOF */
-    __CPROVER_assume(!(vg_k + 1 < got) || buf[vg_k] != '\n');
-    vg_fgets_got = got;
+    __CPROVER_assume(!(vg_k < got - 1) || buf[vg_k] != '\n');
+    vg_stream_left -= got;
+    vg_stream_total += got;
+    if (vg_stream_left == 0) {
+        if (vg_stream_nl) { buf[got - 1] = '\n'; vg_stream_left = nondet_size_t(); vg_stream_nl = nondet_bool(); }
+        else __CPROVER_assume(buf[got - 1] != '\n');
+    } else __CPROVER_assume(buf[got - 1] != '\n');
     return buf;
 }
 
 /* ---- read ----------------------------------------------------------------------
- * Returns -1 with errno set (EINTR, EAGAIN, EIO, EBADF ...; nothing is promised about the
- * buffer), 0 at end of file, or a count 1..n of bytes stored at the start of buf (short reads
- * allowed).  errno is left alone on success. */
-ssize_t vg_read_last;
+ * Returns -1 with errno set (EINTR, EAGAIN, EIO, EBADF; nothing is promised about the buffer), 0 at end of
+ * file, or a count 1..n of bytes stored at the start of buf (short reads allowed).  errno is left alone on
+ * success.  A unit can steer the FIRST call through vg_read_first (0 free, 1 data, 2 end of file, 3 EINTR);
+ * later calls are free.  vg_read_calls counts calls, vg_read_total the bytes delivered. */
+size_t vg_read_calls, vg_read_total;
+int vg_read_first;
+/* errno is `*__errno_location()`; contracts cannot name a call in an assigns clause, so the location is a ghost */
+int vg_errno;
+int *__errno_location(void) { return &vg_errno; }
 ssize_t read(int fd, void *buf, size_t n)
 {
     __CPROVER_assert(n == 0 || (buf != NULL && __CPROVER_w_ok(buf, n)), "read: destination has n writable bytes");
-    if (nondet_bool()) {
-        int e = nondet_int();
-        __CPROVER_assume(e == EINTR || e == EAGAIN || e == EIO || e == EBADF);
-        errno = e;
-        vg_read_last = -1;
-        return -1;
-    }
+    __CPROVER_assume(n == 0 || (buf != NULL && __CPROVER_w_ok(buf, n)));          /* failure above is reported */
+    int mode = (vg_read_calls == 0) ? vg_read_first : 0;
+    vg_read_calls++;
+    _Bool fail = nondet_bool();
     size_t got = nondet_size_t();
     __CPROVER_assume(got <= n);
+    if (mode == 1) __CPROVER_assume(!fail && got >= 1);
+    if (mode == 2) __CPROVER_assume(!fail && got == 0);
+    if (mode == 3) __CPROVER_assume(fail);
+    if (fail) {
+        int e = nondet_int();
+        __CPROVER_assume(e == EINTR || e == EAGAIN || e == EIO || e == EBADF);
+        if (mode == 3) __CPROVER_assume(e == EINTR);
+        errno = e;
+        return -1;
+    }
     if (got > 0) __CPROVER_havoc_slice(buf, got);
-    vg_read_last = (ssize_t) got;
+    vg_read_total += got;
     return (ssize_t) got;
 }
 
